@@ -114,8 +114,8 @@ func encryptSide(r *mon.Run) {
 			lists = append(lists, []string{a, b})
 		}
 	}
-	lists = append(lists, []string{"U4", "X1"}, []string{"E1", "U4"})
-	full := []string{"X1", "X2", "X3", "E1", "E2", "E3", "R1", "R2", "R3", "R4", "U0", "U1", "U2", "U3", "U4"}
+	lists = append(lists, []string{"U4", "X1"}, []string{"E1", "U4"}, []string{"R5"}, []string{"R6", "X1"}, []string{"R4"})
+	full := []string{"X1", "X2", "X3", "E1", "E2", "E3", "R1", "R2", "R3", "R4", "R5", "R6", "U0", "U1", "U2", "U3", "U4"}
 	for i := 0; i < r.Pick(60, 400); i++ {
 		n := 3 + rng.Intn(5)
 		var l []string
@@ -562,6 +562,11 @@ func genCorpus(dir string) {
 		spec{[]string{"X2", "E1", "R1", "X1"}, 1000, "multi-recipient"},
 		spec{[]string{"U0", "X1", "U2", "U1"}, 50, "grease and unknown stanzas around X1"},
 		spec{[]string{"U3", "E2", "U1"}, 48, "unknown stanzas around E2"})
+	// appended later (earlier entries keep their bytes: the tape is sequential)
+	specs = append(specs, spec{[]string{"R4"}, 10, "ssh-rsa 2500 bits"},
+		spec{[]string{"R5"}, 64, "ssh-rsa 2048 bits, public exponent 35"},
+		spec{[]string{"R6"}, 5, "ssh-rsa 2048 bits, public exponent 3"},
+		spec{[]string{"E3", "R5", "X3"}, 65536, "multi-recipient with a small-exponent RSA key"})
 	for si, sp := range specs {
 		seed := fmt.Sprintf("corpus-pt-%d", si)
 		pt := mon.DetBytes(seed, sp.length)
